@@ -5,7 +5,11 @@ Domain : configuration (Colang 1.0 / 2.x, 1-4 input rails drawn in order from th
          enable_rails_exceptions on/off, v1 passthrough mode on/off, v2: rails in config.yml or hand-written
          `flow input rails $input_text`; later turns may repeat an earlier user text verbatim)
          x conversation of 1-4 turns (hostile user texts around a per-turn marker, a dialog route and a verdict per
-         (rail, turn)) x API (generate / generate_async).
+         (rail, turn)) x API (generate / generate_async)
+         x exact variable references: user texts (and texts produced by rewriting rails) that are exactly `$name`
+         with `name` a context variable defined at that point - no marker: the literal text is its own marker
+         x (Colang 1.0) generation options per call: earlier calls with the input rails switched off / other options,
+         later calls that leave them on.
 Oracle : reference model of the input chain (vf.pipeline.model_input) checked on three observation channels:
          (a) trace of rail-action invocations (order, text seen), (b) prompt log of the scripted LLM,
          (c) the value returned by generate.
@@ -30,8 +34,15 @@ RULE = (
     "and a verdict accept|reject|rewrite per (rail, turn); a third of the later turns re-send, character by character, the text of "
     "an earlier turn (same marker); a third of the v1 turns from the third on replace the previous turn (the history is re-sent without the last exchange: edit / regenerate); a quarter of the v1 configurations run in passthrough mode (with and without dialog rails; "
     "without them the LLM input is the chat message list, which the scripted LLM records); run through LLMRails.generate or generate_async with a scripted LLM. "
+    "A third of the conversations carry exact variable references: half of their turns send a user text that is exactly `$name` (no marker; "
+    "name = a context variable defined at that point: last_bot_message, bot_message, user_message, last_user_message, relevant_chunks, the rails' "
+    "result variables, runtime variables; a few undefined names) and (v1) half of the rewriting verdicts produce such a text; the literal is what "
+    "every rail, every later stage and every prompt must show. Three in seven v1 conversations pass generation options per call (plans: the same options "
+    "in every call / drawn per call / one call with the input rails switched off - options.rails as dict or as list without 'input' - and every other "
+    "call with options that leave them on or no options): a call that does not switch the input rails off is judged like any other, a call that does is not judged. "
+    "Enumerated families: every reference name x four v1 and three v2 configurations; input-off spelling x later options x position of the input-off call. "
     "Non-trivial = at least 2 input rails and (a reject after an accepting/rewriting rail, or a rewrite followed by a later "
-    "rail) in some turn, or a reject in a turn >= 2; distinct by the whole case."
+    "rail) in some turn, or a reject in a turn >= 2, or an exact `$name` user text in a turn >= 2, or a judged call after a call that switched the input rails off; distinct by the whole case."
 )
 ASSUMPTIONS = [
     "rail actions are fakes registered with register_action (system actions, like the shipped self-check actions); the shipped `self check input` rail is driven by the scripted LLM's yes/no",
@@ -39,12 +50,54 @@ ASSUMPTIONS = [
     "the caller keeps the conversation the way the server does: previous user messages and returned replies are passed back as `messages` (v1) / the returned `state` (v2); a turn marked redo re-sends that list without the last exchange",
     "the LLM text generated for un-blocked turns and what output rails do with refusals are not asserted here (C02)",
     "raw passthrough mode (passthrough without dialog rails) hands the caller's own message list to the LLM: there only the message of the current turn (last list element) is asserted to be the rewritten one, earlier turns are the caller's business",
+    "a call made with the input rails switched off by its generation options (options.rails.input false / a rails list without 'input') is not judged at all here (C16 owns what such a call does); its user text counts as sent un-rewritten",
+    "the library can put the rewritten text of EARLIER turns into later prompts only while it recognises the conversation (same options + same messages); when the options differ between the calls of a conversation the history is rebuilt from the caller's own messages, so what earlier turns look like in later prompts is asserted only while all calls so far used identical options",
+    "a user text / rewrite product that is exactly `$name` is its own marker: presence checks use the literal, and the must-not-appear checks are skipped for a literal that is also a substring of another text of the same conversation",
     "a turn that needs more than 100 internal events makes the Colang 1.0 runtime raise `Too many events.` (safety limit); such cases (many rails + long routes) are counted as skipped, not judged",
 ]
 
 
 def budget(tier):
     return 480 if tier == "quick" else 6600
+
+
+# Exact variable references: names of context variables that are defined when the input rails of a turn have run
+# (Colang 1.0: `create event UserMessage(text=$user_message)` in llm_flows.co; Colang 2.x: the globals and the
+# parameters / locals of the rail flows), plus two names nothing defines.
+V1_REF_NAMES = ["last_bot_message", "bot_message", "user_message", "last_user_message", "relevant_chunks", "allowed", "vf_checked", "triggered_input_rail", "input_flows", "i", "config", "event", "generation_options"]
+V2_REF_NAMES = ["bot_message", "user_message", "last_bot_message", "last_user_message", "text", "input_text", "allowed", "system", "event"]
+UNDEF_REF_NAMES = ["nothing", "5"]
+
+# Generation options of one call (Colang 1.0).  ON: the input rails stay on; OFF: the call switches them off.
+OPTS_ON = [
+    None,
+    {"log": {"activated_rails": True}},
+    {"rails": {"input": True}},
+    {"rails": ["input", "dialog", "retrieval", "output"]},
+    {"rails": ["input", "dialog"]},
+    {"rails": {"output": False}},
+]
+OPTS_OFF = [
+    {"rails": {"input": False}},
+    {"rails": ["dialog", "output"]},
+    {"rails": ["dialog", "retrieval", "output"]},
+    {"rails": {"input": False, "output": False}},
+    {"rails": ["dialog"]},
+]
+
+
+def ref_names(v):
+    return (V1_REF_NAMES if v == 1 else V2_REF_NAMES) + UNDEF_REF_NAMES
+
+
+def input_on(options):
+    """Does a call with these generation options leave the input rails on?  (docs: generation-options.md)"""
+    r = (options or {}).get("rails")
+    if r is None:
+        return True
+    if isinstance(r, list):
+        return "input" in r
+    return r.get("input", True) is not False
 
 
 @st.composite
@@ -61,8 +114,24 @@ def _case(draw):
     else:
         cfg["style"] = draw(st.sampled_from(["config", "hand"]))
     routes = pipeline.routes_for(cfg)
+    n_turns = draw(st.sampled_from([1, 2, 2, 3, 3, 4]))
+    # dimension: exact variable references (a third of the conversations); the names are used in the drawn order
+    refs = draw(st.permutations(ref_names(v))) if draw(st.sampled_from([False, False, True])) else None
+    used = [0]
+
+    def next_ref():
+        used[0] += 1
+        return refs[(used[0] - 1) % len(refs)]
+
+    # dimension: generation options per call (Colang 1.0; the options select rail categories there)
+    plan = draw(st.sampled_from([None, None, None, None, "same", "mixed", "off-then-on"])) if v == 1 else None
+    if plan == "off-then-on":
+        n_turns = max(n_turns, 2)
+        off_turn = draw(st.integers(0, n_turns - 2))
+    elif plan == "same":
+        same = draw(st.sampled_from(OPTS_ON[1:]))
     turns = []
-    for t in range(draw(st.sampled_from([1, 2, 2, 3, 3, 4]))):
+    for t in range(n_turns):
         turn = {
             "user": draw(pipeline.st_user_text(t)),
             "route": draw(st.sampled_from(routes)),
@@ -70,14 +139,37 @@ def _case(draw):
             "out": [draw(pipeline.st_verdict(k, p_accept=8)) for k in cfg["out"]],
             "body": draw(pipeline.st_body()),
         }
+        if refs is not None:
+            if draw(st.booleans()):
+                # the user text is exactly `$name`: no marker, the literal is what every stage must see
+                turn["user"] = "$" + next_ref()
+                turn["ref"] = True
+            if v == 1:
+                # a rewriting rail may produce such a text as well
+                rw = [next_ref() if fakes.eff(k, w) == "rewrite" and draw(st.booleans()) else None for k, w in zip(cfg["in"], turn["in"])]
+                if any(rw):
+                    turn["rw_ref"] = rw
         if t >= 1 and draw(st.sampled_from([False, False, True])):
             # the user sends, character by character, the text of an earlier turn again (usually the previous one)
             s = draw(st.sampled_from([t - 1, t - 1, draw(st.integers(0, t - 1))]))
             turn["user"] = turns[s]["user"]
             turn["umark"] = turns[s].get("umark", s)
+            turn.pop("ref", None)
+            if turns[s].get("ref"):
+                turn["ref"] = True
         if v == 1 and t >= 2 and draw(st.sampled_from([False, False, True])):
             # the user edits the previous message / regenerates: this turn is sent with the history BEFORE the previous turn
             turn["redo"] = True
+        if plan == "same":
+            opts = same
+        elif plan == "mixed":
+            opts = draw(st.sampled_from(OPTS_ON + OPTS_OFF))
+        elif plan == "off-then-on":
+            opts = draw(st.sampled_from(OPTS_OFF)) if t == off_turn else draw(st.sampled_from(OPTS_ON))
+        else:
+            opts = None
+        if opts is not None:
+            turn["options"] = opts
         turns.append(turn)
     return {"config": cfg, "turns": turns, "api": draw(st.sampled_from(["sync", "async"]))}
 
@@ -147,6 +239,57 @@ def enumerate_cases(tier):
                         {"user": f"{fakes.mk_user(1)} and now", "route": "llm", "in": second, "out": [], "body": "second answer"},
                     ]
                     yield {"config": cfg, "turns": turns, "api": "sync"}
+    # exact variable references, Colang 1.0: every name as the whole user text (turn 2, after a plain turn) and as the
+    # product of the first rewriting rail (turn 3), in general / dialog / raw passthrough / passthrough+dialog mode
+    for cfg in (
+        {"v": 1, "in": ["check", "rewrite", "both", "self"], "out": ["check", "self"], "dialog": False, "exc": False, "ret": 1},
+        {"v": 1, "in": ["check", "both"], "out": ["check"], "dialog": True, "exc": False, "ret": 0},
+        {"v": 1, "in": ["rewrite", "check"], "out": [], "dialog": False, "exc": False, "ret": 0, "passthrough": True},
+        {"v": 1, "in": ["both"], "out": ["check"], "dialog": True, "exc": True, "ret": 0, "passthrough": True},
+    ):
+        n, n_out = len(cfg["in"]), len(cfg["out"])
+        j = min(i for i, k in enumerate(cfg["in"]) if k in ("rewrite", "both"))
+        routes = pipeline.routes_for(cfg)
+        for k, name in enumerate(ref_names(1)):
+            turns = [
+                {"user": f"{fakes.mk_user(0)} hello there", "route": "llm", "in": ["accept"] * n, "out": ["accept"] * n_out, "body": "first answer"},
+                {"user": "$" + name, "ref": True, "route": routes[k % len(routes)], "in": ["accept"] * n, "out": ["accept"] * n_out, "body": "second answer"},
+                {"user": f"and {fakes.mk_user(2)} now", "route": "llm", "in": ["accept"] * j + ["rewrite"] + ["accept"] * (n - j - 1), "rw_ref": [None] * j + [name] + [None] * (n - j - 1), "out": ["accept"] * n_out, "body": "third answer"},
+            ]
+            yield {"config": cfg, "turns": turns, "api": "sync"}
+    # exact variable references, Colang 2.x: the literal text is what every rail is given; sent again it is checked again
+    for cfg in (
+        {"v": 2, "in": ["check", "self", "check"], "out": ["check"], "dialog": False, "exc": False, "style": "config"},
+        {"v": 2, "in": ["check", "check"], "out": [], "dialog": True, "exc": True, "style": "hand"},
+        {"v": 2, "in": ["check", "check"], "out": [], "dialog": "llmc", "exc": False, "style": "config"},
+    ):
+        n, n_out = len(cfg["in"]), len(cfg["out"])
+        for k, name in enumerate(ref_names(2)):
+            turns = [
+                {"user": f"{fakes.mk_user(0)} hello there", "route": "llm", "in": ["accept"] * n, "out": ["accept"] * n_out, "body": "first answer"},
+                {"user": "$" + name, "ref": True, "route": ("llm", "predef")[k % 2], "in": ["accept"] * n, "out": ["accept"] * n_out, "body": "second answer"},
+                {"user": "$" + name, "ref": True, "umark": 1, "route": "llm", "in": ["accept"] * (n - 1) + ["reject"], "out": ["accept"] * n_out, "body": "third answer"},
+            ]
+            yield {"config": cfg, "turns": turns, "api": "sync"}
+    # generation options per call (Colang 1.0): one call switches the input rails off (every spelling), the calls around it
+    # leave them on (every spelling / no options); the input-off call is the first or the second of three
+    PATS = (["accept", "rewrite", "accept"], ["reject", "accept", "accept"], ["accept", "rewrite", "reject"])
+    for cfg in (
+        {"v": 1, "in": ["check", "both", "check"], "out": ["check"], "dialog": False, "exc": False, "ret": 0},
+        {"v": 1, "in": ["check", "rewrite", "self"], "out": [], "dialog": True, "exc": True, "ret": 1},
+    ):
+        n_out = len(cfg["out"])
+        for a, off in enumerate(OPTS_OFF):
+            for b, on in enumerate(OPTS_ON):
+                for pos in (0, 1):
+                    turns = []
+                    for t in range(3):
+                        turn = {"user": f"{fakes.mk_user(t)} tell me more", "route": "llm", "in": PATS[(a + b + t) % 3] if t > pos else PATS[0], "out": ["accept"] * n_out, "body": f"answer {t}"}
+                        opts = off if t == pos else (on if t == pos + 1 else OPTS_ON[(a + b) % 2])
+                        if opts is not None:
+                            turn["options"] = opts
+                        turns.append(turn)
+                    yield {"config": cfg, "turns": turns, "api": "sync"}
 
 
 BS = chr(92)  # backslash
@@ -173,6 +316,49 @@ HOSTILE_TEXTS = [
 # ------------------------------------------------------------------------------------------------
 
 
+class _Session(fakes.Session):
+    """Policy of the fakes for this check: a rewriting input rail may hand back an exact variable reference."""
+
+    def rewritten(self, cat, idx, turn, text):
+        names = self.turns[turn].get("rw_ref") or []
+        if cat == "in" and idx < len(names) and names[idx] is not None:
+            return "$" + names[idx]
+        return super().rewritten(cat, idx, turn, text)
+
+
+def _model(cfg, spec, t):
+    """pipeline.model_input with the literal texts of exact references in the place of the markers they have none of:
+    the user text `$name` of a reference turn stands for `UM{t}Z`, the product `$name` of rewriting rail i for `RWI{i}U{t}Z`.
+    "literal": the texts that must be seen exactly (not just contained)."""
+    m = pipeline.model_input(cfg, spec, t)
+    sub = {}
+    if spec.get("ref"):
+        sub[m["orig"]] = spec["user"]
+    for i, name in enumerate(spec.get("rw_ref") or []):
+        if name is not None:
+            sub[fakes.mk_rw_in(i, t)] = "$" + name
+    f = lambda x: sub.get(x, x)  # noqa: E731
+    calls = [{"rail": c["rail"], "sees": f(c["sees"]), "not": (f(c["not"]) if c["not"] and f(c["not"]) != f(c["sees"]) else None), "verdict": c["verdict"]} for c in m["calls"]]
+    return {"calls": calls, "blocked": m["blocked"], "final": f(m["final"]), "orig": f(m["orig"]), "literal": set(sub.values())}
+
+
+def _ambiguous_literals(case):
+    """Literal texts (`$name`) that are also part of ANOTHER text of the conversation (`$i` in `$input_flows`, `$user_message`
+    inside a hostile text ...): finding such a literal somewhere says nothing about where it came from."""
+    texts, lits = set(), set()
+    for t, spec in enumerate(case["turns"]):
+        texts.add(spec["user"])
+        if spec.get("ref"):
+            lits.add(spec["user"])
+        for i, name in enumerate(spec.get("rw_ref") or []):
+            if name is not None:
+                texts.add("$" + name)
+                lits.add("$" + name)
+            else:
+                texts.add(fakes.rw_in_text(i, t))
+    return {x for x in lits if any(x != y and x in y for y in texts)}
+
+
 def _check(case, obs):
     cfg = case["config"]
     v = cfg["v"]
@@ -190,17 +376,44 @@ def _check(case, obs):
     dead_after = None
     raw_mode = bool(cfg.get("passthrough")) and not cfg["dialog"]  # the LLM is handed the caller's message list
     sent_plain, sent_any = set(), set()  # markers of texts that went through un-rewritten / that were sent at all
+    ambiguous = _ambiguous_literals(case)
+    varied = False  # some call so far used other generation options than the first one: the history may be the caller's messages
+    off_before = False  # an earlier call of the conversation switched the input rails off
     for t, (spec, o) in enumerate(zip(case["turns"], obs.turns)):
         if o["raised"]:
             if pipeline.EVENT_BUDGET in o["raised"]:
                 return ok(skip="v1 runtime gave up: more than 100 new events in one turn (documented safety limit)", labels=["event-budget-exceeded"])
             raise RuntimeError(f"generate raised in turn {t}: {o['raised']}")
-        m = pipeline.model_input(cfg, spec, t)
+        m = _model(cfg, spec, t)
+        opts = spec.get("options")
+        varied = varied or opts != case["turns"][0].get("options")
+        if opts is not None:
+            labels.append("options:" + ("input-off" if not input_on(opts) else "log" if "rails" not in opts else "input-on") + ("" if "rails" not in opts else "-list" if isinstance(opts["rails"], list) else "-dict"))
+        if not input_on(opts):
+            # this call switched the input rails off itself: not judged (C16); its text went through as it was sent
+            off_before = True
+            sent_plain.add(m["orig"])
+            sent_any.add(m["orig"])
+            continue
+        if off_before:
+            labels.append("input-on-after-input-off-call")
+            nt = True
+        if varied:
+            labels.append("options-differ-between-calls")
+        if spec.get("ref"):
+            labels.append("user-text=$" + ("defined-variable" if spec["user"][1:] not in UNDEF_REF_NAMES else "undefined-name"))
+            nt = nt or t >= 1
+        if any(spec.get("rw_ref") or []):
+            labels.append("rewrite-product=$variable")
         entries = [e for e in o["trace"] if e["cat"] == "in"]
-        what = f"v{v} turn {t} (verdicts {spec['in']})"
+        what = f"v{v} turn {t} (verdicts {spec['in']}" + (f", options {opts}" if opts is not None else "") + ")"
         prob = pipeline.chain_problem(m["calls"], entries, what)
         if prob:
             raise Violation("input-rail-chain", prob, {"turn": t, "v": v, "no_rail_ran": not entries, "dead_after_backslash_turn": dead_after})
+        for c, e in zip(m["calls"], entries):
+            # a text that is exactly `$name` must be handed to the rail as it is (not the value of that variable, not a part of it)
+            if c["sees"] in m["literal"] and (e["text"] != c["sees"] or (e.get("ctx") is not None and e["ctx"] != c["sees"])):
+                raise Violation("input-rail-chain", f"{what}: {c['rail']} was given {str(e['text'])[:80]!r} (context variable {str(e.get('ctx'))[:80]!r}), the text to check is exactly {c['sees']!r}", {"turn": t, "v": v})
         if BS in spec["user"] and dead_after is None and not o["llm"] and not pipeline.reply_text(o) and m["blocked"] is None:
             dead_after = t  # F14 signature: the turn of a text with a backslash produced neither an LLM call nor a reply
         gen = [c for c in o["llm"] if c["task"] in GENERATION_TASKS]
@@ -258,7 +471,8 @@ def _check(case, obs):
                 # (4) every later stage sees only the rewritten text (statement: Colang 1.0).  The original marker may
                 # legitimately be around when an earlier turn sent the same text and it was not rewritten then
                 # (history), or - raw passthrough - when an earlier turn sent it at all (the caller's own messages).
-                orig_elsewhere = m["orig"] in sent_plain or (raw_mode and m["orig"] in sent_any)
+                # With generation options that differ between the calls the history is the caller's messages as well.
+                orig_elsewhere = m["orig"] in sent_plain or ((raw_mode or varied) and m["orig"] in sent_any) or m["orig"] in ambiguous
                 for c in o["llm"]:
                     if c["task"] == "self_check_input":
                         continue  # its text is checked as part of the chain above
@@ -273,7 +487,7 @@ def _check(case, obs):
                     if c.get("messages"):
                         # the LLM input was a message list (passthrough): its last message is this turn's user message
                         last = str(c["messages"][-1].get("content"))
-                        if m["final"] not in last or (m["final"] != m["orig"] and m["orig"] in last):
+                        if m["final"] not in last or (m["final"] != m["orig"] and m["orig"] in last and m["orig"] not in m["final"]) or (m["final"] in m["literal"] and last != m["final"]):
                             raise Violation(
                                 "original-text-in-prompt",
                                 f"{what}: the last message handed to the LLM is {last[:100]!r}; the input rails left the text carrying {m['final']}",
@@ -281,7 +495,7 @@ def _check(case, obs):
                             )
                         labels.append("llm-input-is-message-list")
                 for e in o["trace"]:
-                    if e["cat"] == "out" and e.get("user_ctx") is not None and m["final"] not in str(e["user_ctx"]):
+                    if e["cat"] == "out" and e.get("user_ctx") is not None and (m["final"] not in str(e["user_ctx"]) or (m["final"] in m["literal"] and e["user_ctx"] != m["final"])):
                         raise Violation("original-text-in-context", f"{what}: an output rail saw $user_message = {str(e['user_ctx'])[:80]!r}", {"turn": t})
         # (5) later turns never see the original of a rewritten earlier message (Colang 1.0; not in raw passthrough
         #     mode, where the LLM is handed the caller's own message list)
@@ -289,8 +503,8 @@ def _check(case, obs):
             sent_plain.add(m["orig"])
         sent_any.add(m["orig"])
         if v == 1 and not raw_mode:
-            for s, orig in rewritten_before:
-                if orig in sent_plain or orig == m["orig"]:
+            for s, orig in rewritten_before if not varied else ():
+                if orig in sent_plain or orig == m["orig"] or orig in ambiguous:
                     continue  # (this turn carries the same text itself: check (4) and the chain check speak for it)
                 for c in o["llm"]:
                     if orig in str(c["prompt"]):
@@ -306,16 +520,16 @@ def _check(case, obs):
             nt = nt or bool(rewritten_before)
         if "umark" in spec:
             labels.append("repeated-user-text")
-            prev = pipeline.model_input(cfg, case["turns"][t - 1], t - 1)
+            prev = _model(cfg, case["turns"][t - 1], t - 1)
             if spec["user"] == case["turns"][t - 1]["user"]:
-                labels.append("same-text-as-previous-turn:" + ("rejected" if prev["blocked"] is not None else "passed") + "-then-" + ("rejected" if m["blocked"] is not None else "passed"))
+                labels.append("same-text-as-previous-turn:" + ("unchecked" if not input_on(case["turns"][t - 1].get("options")) else "rejected" if prev["blocked"] is not None else "passed") + "-then-" + ("rejected" if m["blocked"] is not None else "passed"))
                 nt = True
         labels.append("route=" + (spec["route"] if cfg["dialog"] else "general"))
     return ok(nt=nt, labels=sorted(set(labels)), view=pipeline.view(case, obs))
 
 
 def prop(case):
-    return pipeline.run_checked(case, _check)
+    return pipeline.run_checked(case, _check, session_cls=_Session)
 
 
 def known(case, violation):
